@@ -35,6 +35,8 @@ func runC14(r *oblig.Report) {
 	a.OrderCalls("R3.1", fs)
 	a.Entropy("R3.4", fs, false)
 	e2own.Globals(c.P, r, "R2.2", fs)
+	r.Rule("R1.6i", "universe", "index loops over a list (type definitions, relations, conditions, restrictions) start at 0 and run to len(list)", 0)
+	e5path.IndexLoopsCoverList(c.P, r, "R1.6i", fs)
 	helper := c.Entry("transformer.constructSourceComment")
 	e5path.OptionFlow(c.P, r, "R5.7", "transformOptions", "includeSourceInformation", helper, fs)
 	e5path.HelperFalse(c.P, r, "R5.7", helper, "includeSourceInformation")
